@@ -2,6 +2,7 @@
 package main
 
 import (
+	"time"
 	"encoding/hex"
 	"fmt"
 	"math/big"
@@ -25,6 +26,7 @@ type cfgSpec struct {
 	public   bool
 	coinbase int // -1 none, -2 dedicated account, >=0 account index that also sends
 	vault    bool // fund aergo.vault so that voting rewards are paid
+	postlock bool // move the chain past the 86400-block staking lock so that unstake / re-stake / re-vote succeed
 }
 
 func main() {
@@ -34,8 +36,8 @@ func main() {
 	}
 	c := vf.Start("C01", "exploration")
 	cfgs := []cfgSpec{
-		{"pub-cb", true, -2, false}, {"pub-nocb", true, -1, false}, {"pub-cbsender", true, 0, false},
-		{"priv-cb", false, -2, false}, {"priv-nocb", false, -1, false}, {"pub-cb-vault", true, -2, true},
+		{"pub-cb", true, -2, false, false}, {"pub-nocb", true, -1, false, false}, {"pub-cbsender", true, 0, false, false},
+		{"priv-cb", false, -2, false, false}, {"priv-nocb", false, -1, false, false}, {"pub-cb-vault", true, -2, true, false}, {"pub-cb-postlock", true, -2, true, true},
 	}
 	nblocks := c.Pick(14, 40)
 	seeds := c.Pick(1, 4)
@@ -106,10 +108,29 @@ func runConfig(c *vf.Ctx, cs cfgSpec, s int, nblocks int) {
 	}
 	prevSum := prevDump.Sum()
 	r := c.Rand("mix/" + name)
-	for no := uint64(1); no <= uint64(nblocks); no++ {
+	for step := 1; step <= nblocks; step++ {
+		if cs.postlock && step == 8 {
+			// past the lock period: only the producer is kept (the validator would have to replay 86400 blocks)
+			prod.Timeout = 20 * time.Minute
+			if e, err := prod.ProduceEmpty(86400); err != nil || e != "" {
+				c.Inconclusive(fmt.Sprintf("config %s: fast-forward failed: %v %s", name, err, e))
+				return
+			}
+			val.Kill()
+			val = prod
+			g.Staked = map[int]bool{}
+			g.Kinds = []string{"unstake", "unstake", "stake", "votebp", "votedao", "xfer", "unstake", "name", "name-update"}
+			if prevDump, err = prod.Dump(nil); err != nil {
+				c.Inconclusive("dump: " + err.Error())
+				return
+			}
+			prevSum = prevDump.Sum()
+		}
+		pb, _ := prod.Best()
+		no := pb.No + 1
 		ntx := 3 + r.Intn(22)
 		cands := g.Block(no, ntx)
-		if cs.vault && no == 1 {
+		if cs.vault && step == 1 {
 			// first tx: fund aergo.vault
 			sp := rig.TxSpec{Type: 4, From: w.Accts[11], To: []byte("aergo.vault"), Amount: new(big.Int).Mul(big.NewInt(1000), rig.Aergo),
 				Nonce: 1, ChainID: w.CIDHash(no), GasPrice: big.NewInt(50000000000)}
@@ -197,7 +218,10 @@ func runConfig(c *vf.Ctx, cs cfgSpec, s int, nblocks int) {
 			}
 		}
 		// validator re-executes the block
-		ve, err := val.AddBlock(rsp.Block)
+		ve, err := "", error(nil)
+		if val != prod {
+			ve, err = val.AddBlock(rsp.Block)
+		}
 		if err != nil {
 			c.Violation("validator-died", fmt.Sprintf("config %s block %d: %v", name, no, err), cd)
 			return
